@@ -1,0 +1,464 @@
+//! Verification harness for property C14 (test-only; see /verif): validator set mirror.
+//!
+//! Sibling of `app::verif`: every line which is not one of the ops below is delegated to
+//! `verif::Harness::run_line`, so the whole grammar of the app harness (`case`, `genesis`, `tx`,
+//! `block`, `advance`, `begin`/`exec`/`end`, `dump`, ...) is available.
+//!
+//! Additional ops:
+//! * `vdump` -> `vdump era=<pre|post> count=<n|-> set=<key:power:name,...|-> upd=<key:power,...|->`
+//!   the validator set the application stores (pre-Aspen: the single `ValidatorSet` value,
+//!   post-Aspen: the per-validator entries), the stored validator count, and the current block's
+//!   pending validator updates, all read from the working state.
+//! * `checktx <id>` -> runs the real `service::mempool::check_tx` (CheckTx) for the tx against the
+//!   latest committed snapshot and the app's mempool:
+//!   `checktx <id> ok` | `checktx <id> failed=<class>` | `checktx <id> rejected=<kind>` |
+//!   `checktx <id> unknown`.
+//! * `propose` -> the proposer's path through the real entry points: `prepare_proposal` (txs come
+//!   from the app's mempool), `process_proposal` and `finalize_block` (both served from the cached
+//!   execution, exactly as for a real proposer), `commit`.  Prints `queue <ids|->` (the mempool's
+//!   builder queue right before), `included <ids|->` (user txs of the proposal) and the usual
+//!   `block height=<h> apphash=<16 hex> vupdates=<...>` line, or `propose err=<stage>:<class>`.
+//! * `validate` -> `prepare_proposal` as above, then the proposal is given to `process_proposal`
+//!   with a fresh execution state, i.e. the way a validator which is NOT the proposer handles it.
+//!   Prints `validate queue=<ids|-> included=<ids|-> result=<ok|err=<class>>`.  Nothing is
+//!   committed.
+//!
+//! Run with:
+//! `cargo test --offline -p astria-sequencer --features verif --lib app::verif_c14::drive -- --exact`
+#![allow(
+    clippy::pedantic,
+    clippy::arithmetic_side_effects,
+    clippy::too_many_lines,
+    dead_code
+)]
+
+use std::panic::AssertUnwindSafe;
+
+use bytes::Bytes;
+use futures::{
+    FutureExt as _,
+    StreamExt as _,
+};
+use sha2::{
+    Digest as _,
+    Sha256,
+};
+use tendermint::{
+    abci::{
+        self,
+        types::{
+            CommitInfo,
+            ExtendedCommitInfo,
+        },
+    },
+    block::{
+        Height,
+        Round,
+    },
+    Hash,
+};
+
+use super::verif::{
+    block_hash,
+    block_time,
+    classify,
+    error_chain,
+    hex16,
+    name_sort_key,
+    report_chain,
+    show_validator_updates,
+    Chain,
+    Harness,
+    PResult,
+};
+use crate::{
+    authority::StateReadExt as _,
+    checked_actions::use_pre_aspen_validator_updates,
+    service::mempool::{
+        check_tx,
+        CheckTxOutcome,
+    },
+};
+
+const MAX_TX_BYTES: i64 = 200_000;
+
+fn show_ids(harness: &Harness, txs: impl Iterator<Item = Bytes>) -> String {
+    let ids: Vec<String> = txs
+        .map(|bytes| {
+            let hash: [u8; 32] = Sha256::digest(&bytes).into();
+            harness
+                .tx_names
+                .get(&hash)
+                .cloned()
+                .unwrap_or_else(|| hex16(&hash))
+        })
+        .collect();
+    if ids.is_empty() {
+        "-".to_string()
+    } else {
+        ids.join(",")
+    }
+}
+
+async fn op_vdump(harness: &mut Harness) -> PResult<()> {
+    let names = &harness.names;
+    let chain = harness
+        .chain
+        .as_ref()
+        .ok_or_else(|| "no chain (missing `genesis`)".to_string())?;
+    let state = chain.app.state();
+    let pre_aspen = use_pre_aspen_validator_updates(state)
+        .await
+        .map_err(|e| report_chain(&e))?;
+    let mut validators: Vec<(String, u32, String)> = Vec::new();
+    let show_name = |name: String| if name.is_empty() { "-".to_string() } else { name };
+    // Deliberately independent of the upgrade flag: print whichever storage is populated; if both
+    // were, both would be printed (and the check would see duplicate keys).
+    if let Ok(validator_set) = state.pre_aspen_get_validator_set().await {
+        for update in validator_set.updates() {
+            validators.push((
+                names.show_verification_key(update.verification_key.as_bytes()),
+                update.power,
+                show_name(update.name.to_string()),
+            ));
+        }
+    }
+    {
+        let mut stream = std::pin::pin!(state.get_validators());
+        while let Some(update) = stream.next().await {
+            let update = update.map_err(|e| report_chain(&e))?;
+            validators.push((
+                names.show_verification_key(update.verification_key.as_bytes()),
+                update.power,
+                show_name(update.name.to_string()),
+            ));
+        }
+    }
+    validators.sort_by_key(|(name, ..)| name_sort_key(name));
+    let set = if validators.is_empty() {
+        "-".to_string()
+    } else {
+        validators
+            .iter()
+            .map(|(key, power, name)| format!("{key}:{power}:{name}"))
+            .collect::<Vec<_>>()
+            .join(",")
+    };
+    let count = match state.get_validator_count().await {
+        Ok(count) => count.to_string(),
+        Err(_) => "-".to_string(),
+    };
+    let mut updates: Vec<(String, u32)> = state
+        .get_block_validator_updates()
+        .await
+        .map_err(|e| report_chain(&e))?
+        .updates()
+        .map(|update| {
+            (
+                names.show_verification_key(update.verification_key.as_bytes()),
+                update.power,
+            )
+        })
+        .collect();
+    updates.sort_by_key(|(name, _)| name_sort_key(name));
+    let upd = if updates.is_empty() {
+        "-".to_string()
+    } else {
+        updates
+            .iter()
+            .map(|(key, power)| format!("{key}:{power}"))
+            .collect::<Vec<_>>()
+            .join(",")
+    };
+    let era = if pre_aspen { "pre" } else { "post" };
+    harness.emit(format!("vdump era={era} count={count} set={set} upd={upd}"));
+    Ok(())
+}
+
+async fn op_checktx(harness: &mut Harness, args: &[&str]) -> PResult<()> {
+    let [id] = args else {
+        return Err("usage: checktx <id>".to_string());
+    };
+    let Some(bytes) = harness.txs.get(*id).cloned() else {
+        harness.emit(format!("checktx {id} unknown"));
+        return Ok(());
+    };
+    let chain = harness
+        .chain
+        .as_mut()
+        .ok_or_else(|| "no chain (missing `genesis`)".to_string())?;
+    // As the real `Mempool` service does: the latest committed snapshot.
+    let snapshot = chain.storage.latest_snapshot();
+    let outcome = check_tx(bytes, snapshot, &chain.app.mempool, chain.app.metrics).await;
+    let line = match outcome {
+        CheckTxOutcome::AddedToParked(_)
+        | CheckTxOutcome::AddedToPending(_)
+        | CheckTxOutcome::AlreadyInParked(_)
+        | CheckTxOutcome::AlreadyInPending(_) => format!("checktx {id} ok"),
+        CheckTxOutcome::FailedChecks(error) => {
+            let class = classify("checktx", &error_chain(&error));
+            format!("checktx {id} failed={class}")
+        }
+        CheckTxOutcome::FailedInsertion(error) => {
+            let _ = classify("checktx insertion", &error.to_string());
+            format!("checktx {id} rejected=insertion")
+        }
+        CheckTxOutcome::InternalError(error) => {
+            let _ = classify("checktx internal", &report_chain(&error));
+            format!("checktx {id} rejected=internal")
+        }
+        CheckTxOutcome::RemovedFromMempool {
+            ..
+        } => format!("checktx {id} rejected=removed"),
+    };
+    harness.emit(line);
+    Ok(())
+}
+
+struct Prepared {
+    height: u64,
+    queue: String,
+    included: String,
+    txs: Vec<Bytes>,
+}
+
+async fn prepare(harness: &mut Harness) -> PResult<Result<Prepared, String>> {
+    let proposer = Chain::proposer(&harness.names);
+    let chain = harness
+        .chain
+        .as_mut()
+        .ok_or_else(|| "no chain (missing `genesis`)".to_string())?;
+    chain.reset_round();
+    let height = chain.stored_height().await + 1;
+    let queue: Vec<Bytes> = chain
+        .app
+        .mempool
+        .builder_queue()
+        .await
+        .into_iter()
+        .map(|tx| tx.encoded_bytes().clone())
+        .collect();
+    let request = abci::request::PrepareProposal {
+        max_tx_bytes: MAX_TX_BYTES,
+        txs: vec![],
+        local_last_commit: Some(ExtendedCommitInfo {
+            round: Round::default(),
+            votes: vec![],
+        }),
+        misbehavior: vec![],
+        height: Height::try_from(height).unwrap(),
+        time: block_time(height),
+        next_validators_hash: Hash::default(),
+        proposer_address: proposer,
+    };
+    let response = match chain
+        .app
+        .prepare_proposal(request, chain.storage.clone())
+        .await
+    {
+        Ok(response) => response,
+        Err(error) => {
+            let class = classify("prepare_proposal", &report_chain(&error));
+            chain.reset_round();
+            return Ok(Err(format!("prepare:{class}")));
+        }
+    };
+    let user_txs = match chain.expanded_block_data(height, &response.txs).await {
+        Ok(expanded) => expanded.user_submitted_transactions,
+        Err(text) => {
+            let class = classify("prepare_proposal data", &text);
+            chain.reset_round();
+            return Ok(Err(format!("data:{class}")));
+        }
+    };
+    let queue = show_ids(harness, queue.into_iter());
+    let included = show_ids(harness, user_txs.into_iter());
+    Ok(Ok(Prepared {
+        height,
+        queue,
+        included,
+        txs: response.txs,
+    }))
+}
+
+fn process_request(
+    harness: &Harness,
+    height: u64,
+    txs: Vec<Bytes>,
+) -> abci::request::ProcessProposal {
+    abci::request::ProcessProposal {
+        txs,
+        proposed_last_commit: Some(CommitInfo {
+            round: Round::default(),
+            votes: vec![],
+        }),
+        misbehavior: vec![],
+        hash: block_hash(height),
+        height: Height::try_from(height).unwrap(),
+        time: block_time(height),
+        next_validators_hash: Hash::default(),
+        proposer_address: Chain::proposer(&harness.names),
+    }
+}
+
+async fn op_propose(harness: &mut Harness) -> PResult<()> {
+    let prepared = match prepare(harness).await? {
+        Ok(prepared) => prepared,
+        Err(stage) => {
+            harness.emit(format!("propose err={stage}"));
+            return Ok(());
+        }
+    };
+    let Prepared {
+        height,
+        queue,
+        included,
+        txs,
+    } = prepared;
+    let process = process_request(harness, height, txs.clone());
+    let finalize = Chain::finalize_request(&harness.names, height, txs);
+    let names = &harness.names;
+    let chain = harness.chain.as_mut().expect("chain exists");
+    if let Err(error) = chain
+        .app
+        .process_proposal(process, chain.storage.clone())
+        .await
+    {
+        let class = classify("process_proposal", &report_chain(&error));
+        chain.reset_round();
+        harness.emit(format!("propose err=process:{class}"));
+        return Ok(());
+    }
+    let response = match chain
+        .app
+        .finalize_block(finalize, chain.storage.clone())
+        .await
+    {
+        Ok(response) => response,
+        Err(error) => {
+            let class = classify("finalize_block", &report_chain(&error));
+            chain.reset_round();
+            harness.emit(format!("propose err=finalize:{class}"));
+            return Ok(());
+        }
+    };
+    let app_hash = hex16(response.app_hash.as_bytes());
+    let updates = show_validator_updates(names, &response.validator_updates);
+    if let Err(error) = chain.app.commit(chain.storage.clone()).await {
+        let _ = classify("commit", &report_chain(&error));
+        harness.emit("propose err=commit:commit");
+        return Ok(());
+    }
+    harness.emit(format!("queue {queue}"));
+    harness.emit(format!("included {included}"));
+    harness.emit(format!(
+        "block height={height} apphash={app_hash} vupdates={updates}"
+    ));
+    Ok(())
+}
+
+async fn op_validate(harness: &mut Harness) -> PResult<()> {
+    let prepared = match prepare(harness).await? {
+        Ok(prepared) => prepared,
+        Err(stage) => {
+            harness.emit(format!("validate err={stage}"));
+            return Ok(());
+        }
+    };
+    let Prepared {
+        height,
+        queue,
+        included,
+        txs,
+    } = prepared;
+    let process = process_request(harness, height, txs);
+    let chain = harness.chain.as_mut().expect("chain exists");
+    // A validator which did not prepare this proposal: no cached execution.
+    chain.reset_round();
+    let result = match chain
+        .app
+        .process_proposal(process, chain.storage.clone())
+        .await
+    {
+        Ok(()) => "ok".to_string(),
+        Err(error) => format!(
+            "err={}",
+            classify("process_proposal (validator)", &report_chain(&error))
+        ),
+    };
+    chain.reset_round();
+    harness.emit(format!(
+        "validate queue={queue} included={included} result={result}"
+    ));
+    Ok(())
+}
+
+async fn run_line(harness: &mut Harness, line: &str) {
+    let tokens: Vec<&str> = line.split_whitespace().collect();
+    let Some((&op, args)) = tokens.split_first() else {
+        return;
+    };
+    if !matches!(op, "vdump" | "checktx" | "propose" | "validate") {
+        harness.run_line(line).await;
+        return;
+    }
+    let mark = harness.out.len();
+    let result = AssertUnwindSafe(async {
+        match op {
+            "vdump" => op_vdump(harness).await,
+            "checktx" => op_checktx(harness, args).await,
+            "propose" => op_propose(harness).await,
+            _ => op_validate(harness).await,
+        }
+    })
+    .catch_unwind()
+    .await;
+    let subject = if op == "checktx" {
+        args.first().map(|id| format!(" {id}")).unwrap_or_default()
+    } else {
+        String::new()
+    };
+    match result {
+        Ok(Ok(())) => {}
+        Ok(Err(message)) => {
+            if super::verif::debug_enabled() {
+                eprintln!("[verif] parse error in `{line}`: {message}");
+            }
+            harness.out.truncate(mark);
+            harness.emit(format!("{op}{subject} parseerr"));
+        }
+        Err(_) => {
+            harness.out.truncate(mark);
+            harness.emit(format!("{op}{subject} panic"));
+            if let Some(chain) = harness.chain.as_mut() {
+                let _ = std::panic::catch_unwind(AssertUnwindSafe(|| chain.reset_round()));
+            }
+        }
+    }
+}
+
+#[tokio::test]
+async fn drive() {
+    let Ok(input_path) = std::env::var("VERIF_IN") else {
+        return;
+    };
+    let script = std::fs::read_to_string(&input_path).expect("VERIF_IN should be readable");
+    if super::verif::debug_enabled() {
+        std::panic::set_hook(Box::new(|info| eprintln!("[verif] panic: {info}")));
+    } else {
+        std::panic::set_hook(Box::new(|_| {}));
+    }
+    let mut harness = Harness::new();
+    for line in script.lines() {
+        run_line(&mut harness, line).await;
+    }
+    // Drop the chain (and hence the app) before restoring the default hook.
+    harness.chain = None;
+    let _ = std::panic::take_hook();
+    match std::env::var("VERIF_OUT") {
+        Ok(output_path) => {
+            std::fs::write(&output_path, &harness.out).expect("VERIF_OUT should be writable");
+        }
+        Err(_) => print!("{}", harness.out),
+    }
+}
